@@ -56,6 +56,10 @@ def stepC01 (toks : List String) : Option String :=
   | ["valid", q, w, d, l] => do
     let q ← qtyOf q; let w ← w.toNat?; let d ← d.toNat?; let l ← parseRngs l
     pure (showBool (validB q w d l))
+  -- the ranges are unions of cells of depth `d` (alignment and domain only: canonicity is judged elsewhere)
+  | ["aligned", q, w, d, l] => do
+    let q ← qtyOf q; let w ← w.toNat?; let d ← d.toNat?; let l ← parseRngs l
+    pure (showBool (boundedByB (q.nCellsMax w) l && alignedB (q.cellSize w d) l))
   | ["hintok", l, last, hint] => do
     let l ← parseRngs l; let last ← parseOptRng last; let h ← parseHint hint
     let s : Src := { depth := 0, items := l, last := last, lo := h.1, hi := h.2 }
